@@ -41,7 +41,7 @@ RULE = (
     "mode, dictionary); non-trivial = the dictionary selects an overload, a pre-set/default option or a template."
 )
 ASSUMPTIONS = ["graphs are built from importable module-level functions in explicit dataset(f) form; the decorator form is the recorded finding pickle-decorator-form-dataset"]
-FLOORS = {"warm_memo_roundtrips": (6, 18), "warm_memo_children": (6, 18), "wired_together_checks": (12, 12), "roundtrips": (90, 90), "outcomes_compared": (3700, 3700), "child_interpreters": (30, 90), "post_load_registrations": (36, 36),
+FLOORS = {"warm_memo_roundtrips": (6, 18), "warm_memo_children": (6, 18), "wired_together_checks": (12, 12), "roundtrips": (108, 108), "originals_compared_with_pristine_interpreter": (108, 108), "outcomes_compared": (4500, 4500), "child_interpreters": (30, 90), "post_load_registrations": (36, 36),
           "unpickled_register_schedules": (150, 1500)}
 SHARDS_QUICK = 2
 SHARDS_THOROUGH = 4
@@ -61,6 +61,50 @@ if len(sys.argv) > 3:
 else:
     print(json.dumps(out))
 """
+
+
+PRISTINE_CHILD = r"""
+import json, sys, warnings
+warnings.simplefilter("ignore")
+from lvf import boot
+from lvf.outcome import observe
+from labrea.types import Value
+import labrea.cache
+import lvf.picklemod as M
+M.ds_dep.register("run-time", Value(("registered-at-run-time",)))
+corpus = json.load(open(sys.argv[1]))
+out = {}
+with labrea.cache.disabled():
+    for name, g in M.GRAPHS.items():
+        out[name] = [[repr(observe(g.evaluate, dict(o))), repr(observe(g.keys, dict(o)))] for o in corpus]
+print(json.dumps(out))
+"""
+_PRISTINE = {}
+
+
+def pristine_behaviour(ctx):
+    """What every graph does in an interpreter that has never pickled or unpickled anything (same module, same run-time
+    registration): the yardstick for the originals of THIS process, which has."""
+    if _PRISTINE:
+        return _PRISTINE
+    tmp = tempfile.mkdtemp(prefix="lvf-c20-")
+    try:
+        cpath = os.path.join(tmp, "corpus.json")
+        with open(cpath, "w") as f:
+            json.dump(M.CORPUS, f)
+        env = dict(os.environ, PYTHONPATH=boot.VERIF)
+        r = subprocess.run([sys.executable, "-B", "-c", PRISTINE_CHILD, cpath], cwd=boot.VERIF, env=env, capture_output=True, text=True, timeout=300)
+        if r.returncode != 0:
+            ctx.inconclusive.append(f"pristine interpreter failed: {r.stderr[-300:]}")
+            return _PRISTINE
+        _PRISTINE.update(json.loads(r.stdout.strip().splitlines()[-1]))
+    except subprocess.TimeoutExpired:
+        ctx.inconclusive.append("pristine interpreter timed out")
+    finally:
+        import shutil
+
+        shutil.rmtree(tmp, ignore_errors=True)
+    return _PRISTINE
 
 
 def behaviour(g):
@@ -83,6 +127,14 @@ def roundtrip(ctx, name, proto):
     ctx.count("roundtrips")
     with labrea.cache.disabled():
         a = behaviour(g)
+    base = pristine_behaviour(ctx).get(name)
+    if base is not None:
+        ctx.count("originals_compared_with_pristine_interpreter")
+        for i, o in enumerate(M.CORPUS):
+            if a[i] != base[i]:
+                ctx.violation("loading-changed-the-original", f"{name} protocol {proto}: after copies were loaded in this process the ORIGINAL gives {a[i][0][:150]} on {o}; "
+                              f"in an interpreter that never unpickled anything it gives {base[i][0][:150]}", {**W, "options": o})
+                return None
     b_cold = behaviour(g2)
     b_warm = behaviour(g2)
     ctx.evaluations += 3 * len(M.CORPUS)
